@@ -351,6 +351,19 @@ func (x *executor) applyContract(m *machine, fr *frame, in ssa.Instruction, res 
 		}
 		rs = append(rs, v)
 	}
+	// a callee whose contract speaks about what it allocated (allocd): its allocations lie between the caller's
+	// allocation pointer before the call and an unknown lower pointer after it, from which the caller goes on
+	usesAllocd := false
+	for _, cl := range fc.ensures {
+		if strings.Contains(cl.text, "allocd(") {
+			usesAllocd = true
+		}
+	}
+	if usesAllocd {
+		nl := c.d.fresh("lowc", "Int")
+		st.assume(app("<=", "Bool", nl, pre.lowRef()))
+		st.low = nl
+	}
 	ev2 := &evaluator{x: x, st: st, old: pre, vars: map[string]Val{}, pkg: calleePkg, where: fc.file}
 	for k, v := range vars {
 		ev2.vars[k] = v
@@ -397,6 +410,11 @@ func (x *executor) applyContract(m *machine, fr *frame, in ssa.Instruction, res 
 		st.assume(mkOr(mkEq(c.slRef(nv.t), c.slRef(ov.t)), mkEq(c.slRef(nv.t), c.freshRef(st))))
 	}
 	for _, cl := range fc.ensures {
+		if hasTag(cl.tags, "only") && curProp != "" && !hasTag(cl.tags, curProp) {
+			// `ensures [Cxx only] e`: a postcondition that only the proofs of property Cxx use (kept out of the
+			// other properties' queries; dropping an assumption is always sound)
+			continue
+		}
 		ev2.where = cl.line
 		st.assume(ev2.evalBool(cl.e))
 	}
@@ -569,6 +587,19 @@ func (x *executor) copyRange(st *state, et types.Type, dst, dlo, src, slo, n *T)
 	sidx := c.ix(c.slOff(src), c.arith(token.ADD, slo, c.arith(token.SUB, p2, dbase, intT, nil), intT, nil))
 	body2 := mkImp(inR2, mkEq(app("select", es, na, p2), app("select", es, srcArr, sidx)))
 	st.assume(app(fmt.Sprintf("forall ((%s %s))", p2.op, p2.sort), "Bool", &T{op: "!", args: []*T{body2, atom(":pattern ((select "+na.String()+" "+p2.op+"))", "Attr")}, sort: "Bool"}))
+	if x.fc != nil && x.fc.options["srccopy"] {
+		// the copied range once more, keyed by the source index term: instantiating it for a source element that is
+		// mentioned elsewhere produces the destination index term (a witness for "the element is in the destination")
+		if v, ok := numeralValue(slo); ok && v.Sign() == 0 {
+			qcounter++
+			q := atom(fmt.Sprintf("q!%d", qcounter), c.intSort())
+			inQ := mkAnd(c.cmp(token.LEQ, c.I(0), q, intT), c.cmp(token.LSS, q, n, intT))
+			dq := c.ix(c.slOff(dst), c.arith(token.ADD, dlo, q, intT, nil))
+			sq := c.ix(c.slOff(src), q)
+			body3 := mkImp(inQ, mkEq(app("select", es, na, dq), app("select", es, srcArr, sq)))
+			st.assume(app(fmt.Sprintf("forall ((%s %s))", q.op, q.sort), "Bool", &T{op: "!", args: []*T{body3, atom(":pattern ("+sq.String()+")", "Attr")}, sort: "Bool"}))
+		}
+	}
 	c.setArr(st, et, mkStore(a, c.slRef(dst), na))
 }
 
